@@ -81,6 +81,13 @@ template <class T> static void behaves_like(T &obj, const char *cls, const char 
             if (kept.size() != ml + 16 || memcmp(kept.data(), exp, ml + 16)) { hx_fail(kb, "a kept copy of an encrypt(byte_array) result changed when the same output array was written again (size %zu, adlen=%zu mlen=%zu)", kept.size(), adl, ml); return; }
             if (keptp.size() != ml || (ml && memcmp(keptp.data(), MSG, ml))) { hx_fail(kb, "a kept copy of a decrypt(byte_array) result changed when the same output array was written again (size %zu, mlen=%zu)", keptp.size(), ml); return; }
         }
+        {   /* output arrays that are, at the time of the call, copies of a longer array the caller still holds (they share storage in the copy-on-write byte_array of ASCON_NO_STL builds) */
+            ascon::byte_array big(200, 0x33), o1(big), o2(big), o3(big); unsigned char exp0[96]; c_encrypt(fam, alg, key, NONCE, ADB, 0, MSG, ml, exp0);
+            obj.set_nonce(NONCE, 16); obj.encrypt(o1, bm); obj.set_nonce(NONCE, 16); bool k2 = obj.decrypt(o2, o1); o3.resize(ml + 1);
+            bool same = big.size() == 200 && o3.size() == ml + 1; for (size_t i = 0; same && i < 200; i++) same = big[i] == 0x33 && (i > ml || o3[i] == 0x33);
+            if (!same) { hx_fail(kb, "an array the caller still holds changed when a copy of it was used as an output array (mlen=%zu)", ml); return; }
+            if (o1.size() != ml + 16 || memcmp(o1.data(), exp0, ml + 16) || !k2 || o2.size() != ml || (ml && memcmp(o2.data(), MSG, ml))) { hx_fail(kb, "encrypt / decrypt into an output array that was a copy of a longer array gives a wrong result (mlen=%zu)", ml); return; }
+        }
         /* documented in aead.h: the nonce is not incremented if decryption fails, and is after a success: forged, genuine, then the next packet, without touching the nonce */
         {
             unsigned char forged[96], n1[16], exp2[96]; memcpy(forged, exp, ml + 16); forged[ml + 2] ^= 0x10;
@@ -296,6 +303,8 @@ int main()
       b = ascon::bytes_from_hex("ff00", 4); if (b.size() != 2) hx_fail("cpp:utility", "bytes_from_hex(str,len)");
       b = ascon::bytes_from_data(MSG, 5); if (b.size() != 5 || memcmp(b.data(), MSG, 5)) hx_fail("cpp:utility", "bytes_from_data");
 #if !defined(ASCON_NO_STL)
+      { std::string z("0011\0" "2233", 9); unsigned char t[8]; int cr = ascon_bytes_from_hex(t, sizeof t, z.data(), z.size()); b = ascon::bytes_from_hex(z);
+        if (b.size() != (cr < 0 ? 0u : (size_t)cr)) hx_fail("cpp:utility", "bytes_from_hex(std::string) of a 9-character string holding a NUL returned %zu bytes, the C function returned %d", b.size(), cr); b = ascon::bytes_from_data(MSG, 5); }
       std::string h = ascon::bytes_to_hex(MSG, 3), h2 = ascon::bytes_to_hex(b, true); b = ascon::bytes_from_hex(h2); if (h.size() != 6 || h2.size() != 10 || b.size() != 5) hx_fail("cpp:utility", "bytes_to_hex / bytes_from_hex(std::string)");
 #endif
     }
